@@ -95,7 +95,7 @@ def gen_harness(mir, unitdir, tag, translated=None):
                     vals = [x - 2 ** 64 if x >= 2 ** 63 else x for x in vals]
                     lit = lambda k: "(-9223372036854775807ll - 1)" if k == -2 ** 63 else "%dll" % k
                     L.append("  uint64_t x_%s = nd (); H_ASSUME (%s);" % (n, " | ".join("((int64_t) x_%s == %s)" % (n, lit(k)) for k in vals)))
-                    L.append("  switch ((int64_t) x_%s) { %s default: break; }" % (n, " ".join("case %s: x_%s = (uint64_t) %s; break;" % (lit(k), n, lit(k)) for k in vals)))
+                    L.append("  switch ((int64_t) x_%s) { %s default: H_ASSUME (0); }" % (n, " ".join("case %s: x_%s = (uint64_t) %s; break;" % (lit(k), n, lit(k)) for k in vals)))
                 else:
                     L.append("  uint64_t x_%s = nd ();" % n)
                 cargs.append("(%s) x_%s" % (CTYPE[v.type], n) if v.type != "p" else "(void *) (uintptr_t) x_%s" % n)
